@@ -59,12 +59,20 @@ type c20Op struct {
 	KB    int    `json:"kb,omitempty"`    // approximate payload size in KiB (conf/decoys/subnets); 0 = small
 	Fault string `json:"fault,omitempty"` // "" | vanish | occupied | fsize | marshal
 	Limit int64  `json:"limit,omitempty"` // fault=fsize: RLIMIT_FSIZE (soft) in bytes during the store
+	Exact int    `json:"exact,omitempty"` // conf only: the encoded ClientConf is exactly this many bytes (buffer-size boundaries)
+	AgeH  int    `json:"age_h,omitempty"` // the existing ClientConf file is back-dated by this many hours before the store
 }
 
 func (o c20Op) String() string {
 	s := o.Kind
 	if o.KB > 0 {
 		s += fmt.Sprintf("[%dKiB]", o.KB)
+	}
+	if o.Exact > 0 {
+		s += fmt.Sprintf("[=%dB]", o.Exact)
+	}
+	if o.AgeH > 0 {
+		s += fmt.Sprintf("@old%dh", o.AgeH)
 	}
 	if o.Fault != "" {
 		s += "!" + o.Fault
@@ -185,11 +193,65 @@ func c20Conf(idx, kb int, bad bool) *pb.ClientConf {
 	return c
 }
 
+// c20ConfExact builds whole configuration #idx whose wire encoding is exactly target bytes long: bulk
+// decoys with 240-byte host names, then one filler decoy whose host name is adjusted (and, where a
+// length prefix grows at that very point, the DNS target string as a second knob).
+func c20ConfExact(idx, target int) *pb.ClientConf {
+	c := c20Conf(idx, 0, false)
+	if c.DecoyList == nil {
+		c.DecoyList = &pb.DecoyList{}
+	}
+	mk := func(k int, host string) *pb.TLSDecoySpec {
+		return &pb.TLSDecoySpec{Hostname: proto.String(host), Ipv4Addr: proto.Uint32(0xCB007100 ^ uint32(idx+1)<<8 ^ uint32(k)&0xff),
+			Timeout: proto.Uint32(uint32(21000 + k%100)), Tcpwin: proto.Uint32(15000)}
+	}
+	per := proto.Size(mk(0, c20Pad("x", 240))) + 3
+	if n := (target - proto.Size(c) - 1024) / per; n > 0 {
+		for k := 0; k < n; k++ {
+			c.DecoyList.TlsDecoys = append(c.DecoyList.TlsDecoys, mk(k, c20Pad(fmt.Sprintf("e%dk%d", idx, k), 240)))
+		}
+	}
+	filler := mk(1<<20, "")
+	c.DecoyList.TlsDecoys = append(c.DecoyList.TlsDecoys, filler)
+	baseTarget := c.DnsRegConf.GetTarget()
+	pad, pad2, lastD := 0, 0, 0
+	for iter := 0; iter < 200; iter++ {
+		filler.Hostname = proto.String(c20Pad(fmt.Sprintf("f%d", idx), pad))
+		c.DnsRegConf.Target = proto.String(baseTarget + c20Pad("t", pad2))
+		d := target - proto.Size(c)
+		if d == 0 {
+			return c
+		}
+		if pad+d < 0 {
+			break
+		}
+		if d == -lastD && (d == 1 || d == -1) {
+			pad2++ // a length prefix grows exactly here: shift everything by one byte with the other knob
+			if d < 0 {
+				pad--
+			}
+			lastD = 0
+			continue
+		}
+		pad += d
+		lastD = d
+	}
+	panic(fmt.Sprintf("c20: cannot build a configuration of exactly %d bytes", target))
+}
+
+// c20ConfFor is the whole configuration that store #idx (a "conf" op) carries.
+func c20ConfFor(idx int, op c20Op) *pb.ClientConf {
+	if op.Exact > 0 && op.Fault != "marshal" {
+		return c20ConfExact(idx, op.Exact)
+	}
+	return c20Conf(idx, op.KB, op.Fault == "marshal")
+}
+
 // c20Arg is the argument of store #idx.
 func c20Arg(idx int, op c20Op) any {
 	switch op.Kind {
 	case "conf":
-		return c20Conf(idx, op.KB, op.Fault == "marshal")
+		return c20ConfFor(idx, op)
 	case "decoys":
 		return c20Decoys(idx, op.KB)
 	case "pubkey":
@@ -207,7 +269,7 @@ func c20Arg(idx int, op c20Op) any {
 // / the generation / the phantom subnets), not from their code.
 func c20Model(cur *pb.ClientConf, idx int, op c20Op) *pb.ClientConf {
 	if op.Kind == "conf" {
-		return c20Conf(idx, op.KB, op.Fault == "marshal")
+		return c20ConfFor(idx, op)
 	}
 	n := proto.Clone(cur).(*pb.ClientConf)
 	switch op.Kind {
@@ -301,6 +363,15 @@ type c20Obs struct {
 	GettersNotes   []string `json:"getters_notes,omitempty"`
 	GettersSkipped string   `json:"getters_skipped,omitempty"`
 
+	// a concurrent reader polling the ClientConf path during the store (not while the directory is
+	// moved away / occupied): the file must exist at every instant and every complete read must be
+	// the file as it was before or as it is after the store
+	ReaderPolls   int    `json:"reader_polls,omitempty"`
+	ReaderReads   int    `json:"reader_reads,omitempty"`
+	ReaderMissing int    `json:"reader_missing,omitempty"`
+	ReaderOdd     int    `json:"reader_odd,omitempty"`
+	ReaderOddWhat string `json:"reader_odd_what,omitempty"`
+
 	// after a failed or faulted store, fault lifted: the directory loaded the way a restarting client
 	// loads it (fresh singleton + AssetsSetDir)
 	Reload     bool   `json:"reload,omitempty"`
@@ -356,6 +427,14 @@ func c20ChildMain() {
 	say("R")
 	for i, op := range c.Ops {
 		var o c20Obs
+		if op.AgeH > 0 {
+			old := time.Now().Add(-time.Duration(op.AgeH) * time.Hour)
+			_ = os.Chtimes(target, old, old)
+		}
+		var rd *c20Reader
+		if obsDir != "" && op.Fault != "vanish" && op.Fault != "occupied" {
+			rd = c20StartReader(target)
+		}
 		// ---- inject
 		switch op.Fault {
 		case "vanish":
@@ -407,6 +486,9 @@ func c20ChildMain() {
 		}
 		if serr != nil {
 			o.Err = serr.Error()
+		}
+		if rd != nil {
+			rd.finish(&o, target)
 		}
 		// ---- observe (before the fault is reverted)
 		if obsDir != "" {
@@ -899,4 +981,81 @@ func c20ObserveGetters(o *c20Obs, live *assets, refDir string, probes []*pb.TLSD
 		return
 	}
 	o.GettersDiffer, o.GettersChecked, o.GettersNotes = c20CompareGetters(live, ref, probes)
+}
+
+// ---- concurrent reader ---------------------------------------------------------------------------
+
+// c20Reader polls the ClientConf path while a store runs, the way another thread or process of the
+// client (or a restarting client) may look at it at any instant.
+type c20Reader struct {
+	stop    chan struct{}
+	done    chan struct{}
+	before  string // hash of the file before the store ("" = not hashed: larger than the read limit)
+	polls   int
+	reads   int
+	missing int
+	seen    map[string]int // hash -> length, of complete reads
+}
+
+const c20ReadLimit = 1 << 20 // files up to this size are read completely on every poll
+
+func c20Hash(b []byte) string {
+	h := sha256.Sum256(b)
+	return hex.EncodeToString(h[:12])
+}
+
+func c20StartReader(target string) *c20Reader {
+	r := &c20Reader{stop: make(chan struct{}), done: make(chan struct{}), seen: map[string]int{}}
+	if b, err := os.ReadFile(target); err == nil && len(b) <= c20ReadLimit {
+		r.before = c20Hash(b)
+	} else if err != nil {
+		return nil // nothing there to watch (already judged elsewhere)
+	}
+	go func() {
+		defer close(r.done)
+		for {
+			select {
+			case <-r.stop:
+				return
+			default:
+			}
+			r.polls++
+			fi, err := os.Lstat(target)
+			if err != nil {
+				if os.IsNotExist(err) {
+					r.missing++
+				}
+				continue
+			}
+			if fi.Mode().IsRegular() && fi.Size() <= c20ReadLimit && len(r.seen) < 16 {
+				if b, err := os.ReadFile(target); err == nil {
+					r.reads++
+					r.seen[c20Hash(b)] = len(b)
+				} else if os.IsNotExist(err) {
+					r.missing++
+				}
+			}
+		}
+	}()
+	return r
+}
+
+func (r *c20Reader) finish(o *c20Obs, target string) {
+	close(r.stop)
+	<-r.done
+	o.ReaderPolls, o.ReaderReads, o.ReaderMissing = r.polls, r.reads, r.missing
+	after := ""
+	if b, err := os.ReadFile(target); err == nil {
+		after = c20Hash(b)
+	}
+	for h, n := range r.seen {
+		if h == after || (r.before != "" && h == r.before) {
+			continue
+		}
+		if r.before == "" {
+			continue // the file was too large to be hashed beforehand: a small read cannot be classified
+		}
+		o.ReaderOdd++
+		o.ReaderOddWhat = fmt.Sprintf("a %d-byte file that is neither the file before nor the file after the store", n)
+	}
 }
